@@ -53,10 +53,23 @@ func (e *Enc) sliceOp(fr *frame, st *State, x *ssa.Slice) Value {
 		capT := "(s_cap " + base.term + ")"
 		mx := opt(x.Max, capT)
 		e.oblige(st, "nopanic", "slice-bounds", fmt.Sprintf("(and (<= 0 %s) (<= %s %s) (<= %s %s) (<= %s %s))", lo, lo, hi, hi, mx, mx, capT), x.Pos())
-		t := fmt.Sprintf("(mk_slice (s_arr %[1]s) (+ (s_off %[1]s) %[2]s) (- %[3]s %[2]s) (- %[4]s %[2]s))", base.term, lo, hi, mx)
+		newOff := e.q.idxOf(base.term, lo)
+		if lo == "0" {
+			newOff = e.q.offOf(base.term)
+		}
+		lenT := "(- " + hi + " " + lo + ")"
+		capT2 := "(- " + mx + " " + lo + ")"
+		if lo == "0" {
+			lenT, capT2 = hi, mx
+		}
+		t := fmt.Sprintf("(mk_slice (s_arr %s) %s %s %s)", base.term, newOff, lenT, capT2)
 		// slicing a nil slice yields nil
 		t = ite("(= (s_arr "+base.term+") 0)", "nil_slice", t)
-		return Value{term: e.q.define(fr.prefix+x.Name(), sortSlice, t), typ: x.Type()}
+		res := e.q.define(fr.prefix+x.Name(), sortSlice, t)
+		if newOff == "0" {
+			e.q.markOff0(res)
+		}
+		return Value{term: res, typ: x.Type()}
 	case *types.Pointer:
 		at := bt.Elem().Underlying().(*types.Array)
 		n := fmt.Sprint(at.Len())
@@ -70,7 +83,14 @@ func (e *Enc) sliceOp(fr *frame, st *State, x *ssa.Slice) Value {
 		}
 		e.checkNonNilPtr(st, base, x.Pos(), "slice of array")
 		t := fmt.Sprintf("(mk_slice %s %s (- %s %s) (- %s %s))", base.term, lo, hi, lo, mx, lo)
-		return Value{term: e.q.define(fr.prefix+x.Name(), sortSlice, t), typ: x.Type()}
+		if lo == "0" {
+			t = fmt.Sprintf("(mk_slice %s 0 %s %s)", base.term, hi, mx)
+		}
+		res := e.q.define(fr.prefix+x.Name(), sortSlice, t)
+		if lo == "0" {
+			e.q.markOff0(res)
+		}
+		return Value{term: res, typ: x.Type()}
 	}
 	panic("slice of " + x.X.Type().String())
 }
@@ -85,7 +105,9 @@ func (e *Enc) makeSlice(fr *frame, st *State, x *ssa.MakeSlice) Value {
 	et := x.Type().Underlying().(*types.Slice).Elem()
 	ek := e.elemKey(et)
 	st.set(ek, store(st.get(ek), ref, "((as const (Array Int "+e.u.sortOf(et)+")) "+e.u.zero(et)+")"))
-	return Value{term: e.q.define(fr.prefix+x.Name(), sortSlice, fmt.Sprintf("(mk_slice %s 0 %s %s)", ref, ln.term, cp.term)), typ: x.Type()}
+	res := e.q.define(fr.prefix+x.Name(), sortSlice, fmt.Sprintf("(mk_slice %s 0 %s %s)", ref, ln.term, cp.term))
+	e.q.markOff0(res)
+	return Value{term: res, typ: x.Type()}
 }
 
 // appendOp models append(s, t...).
@@ -110,7 +132,8 @@ func (e *Enc) appendOp(fr *frame, st *State, s, t Value, rt types.Type, name str
 	newCap := e.q.fresh("app_cap", sortInt)
 	st.assume("(>= " + newCap + " (+ " + sl + " " + n + "))")
 	arr := e.q.define("app_arr", sortInt, ite(fits, "(s_arr "+s.term+")", newRef))
-	off := e.q.define("app_off", sortInt, ite(fits, "(s_off "+s.term+")", "0"))
+	sOff := e.q.offOf(s.term)
+	off := e.q.define("app_off", sortInt, ite(fits, sOff, "0"))
 	// new contents of the target backing array
 	na := e.q.fresh("app_elems", "(Array Int "+es+")")
 	oldTarget := sel(heapE, "(s_arr "+s.term+")")
@@ -119,20 +142,28 @@ func (e *Enc) appendOp(fr *frame, st *State, s, t Value, rt types.Type, name str
 	if tIsString {
 		srcElem = "(str.to_code (str.at " + t.term + " " + j + "))"
 	} else {
-		srcElem = sel(sel(heapE, "(s_arr "+t.term+")"), "(+ (s_off "+t.term+") "+j+")")
+		srcElem = sel(sel(heapE, "(s_arr "+t.term+")"), e.q.idxOf(t.term, j))
+	}
+	startT := sl
+	if sOff != "0" {
+		startT = "(+ " + sOff + " " + sl + ")"
 	}
 	// in place: positions off+len .. off+len+n-1 get t's elements, others unchanged
-	inPlace := fmt.Sprintf("(forall ((%[1]s Int)) (= (select %[2]s %[1]s) (ite (and (<= (+ %[3]s %[4]s) %[1]s) (< %[1]s (+ %[3]s %[4]s %[5]s))) %[6]s (select %[7]s %[1]s))))",
-		j, na, "(s_off "+s.term+")", sl, n, strings.ReplaceAll(srcElem, j, "(- "+j+" (+ (s_off "+s.term+") "+sl+"))"), oldTarget)
+	inPlace := fmt.Sprintf("(forall ((%[1]s Int)) (= (select %[2]s %[1]s) (ite (and (<= %[4]s %[1]s) (< %[1]s (+ %[4]s %[5]s))) %[6]s (select %[7]s %[1]s))))",
+		j, na, "0", startT, n, strings.ReplaceAll(srcElem, j, "(- "+j+" "+startT+")"), oldTarget)
 	// fresh: first len from s, next n from t
-	realloc := fmt.Sprintf("(forall ((%[1]s Int)) (and (=> (and (<= 0 %[1]s) (< %[1]s %[2]s)) (= (select %[3]s %[1]s) (select %[4]s (+ (s_off %[5]s) %[1]s)))) (=> (and (<= %[2]s %[1]s) (< %[1]s (+ %[2]s %[6]s))) (= (select %[3]s %[1]s) %[7]s))))",
-		j, sl, na, oldTarget, s.term, n, strings.ReplaceAll(srcElem, j, "(- "+j+" "+sl+")"))
+	realloc := fmt.Sprintf("(forall ((%[1]s Int)) (and (=> (and (<= 0 %[1]s) (< %[1]s %[2]s)) (= (select %[3]s %[1]s) (select %[4]s %[8]s))) (=> (and (<= %[2]s %[1]s) (< %[1]s (+ %[2]s %[6]s))) (= (select %[3]s %[1]s) %[7]s))))",
+		j, sl, na, oldTarget, s.term, n, strings.ReplaceAll(srcElem, j, "(- "+j+" "+sl+")"), e.q.idxOf(s.term, j))
 	st.assume(ite(fits, inPlace, realloc))
 	st.set(ek, store(heapE, arr, na))
 	res := fmt.Sprintf("(mk_slice %s %s (+ %s %s) %s)", arr, off, sl, n, ite(fits, "(s_cap "+s.term+")", newCap))
 	// append(nil, <empty>) == nil ; append(s, <empty>) == s
 	res = ite("(= "+n+" 0)", s.term, res)
-	return Value{term: e.q.define(name, sortSlice, res), typ: rt}
+	out := e.q.define(name, sortSlice, res)
+	if sOff == "0" {
+		e.q.markOff0(out)
+	}
+	return Value{term: out, typ: rt}
 }
 
 // ---------------------------------------------------------------------------
